@@ -278,3 +278,34 @@ def sample_walks(ctx, P, rule="SAMPLE-WALK", tus=("genotypes", "trees"), floor=1
                 ctx.ob(rule, key_, True, where, "walk over %s: left .. right inclusive, NULL-guarded" % var)
     ctx.floor(rule, floor)
     return n
+
+
+def variant_copy(ctx, P, rule="VARIANT-COPY"):
+    ctx.rule(rule, "tsk_variant_restricted_copy starts from a bitwise copy, so every pointer member of tsk_variant_t is afterwards either "
+                   "set to NULL or pointed at memory the copy owns (`other->F = tsk_malloc(...)`), and every owned buffer is filled "
+                   "from the source with its own element size and the copy's count: no member of the copy aliases a buffer that the "
+                   "original frees or overwrites on its next decode")
+    tu = P.tus["genotypes"]
+    fn = P.need("tsk_variant_restricted_copy", "genotypes")
+    F = Facts(P, fn)
+    fields = P.structs.get("tsk_variant_t") or []
+    ctx.need(bool(fields), "struct tsk_variant_t")
+    dst = fn.params[1].name if len(fn.params) > 1 else "other"
+    src_ = fn.params[0].name if fn.params else "self"
+    first = [n for c_, a, n in F.calls if c_ in ("tsk_memcpy", "memcpy") and a and a[0] == dst and a[1] == src_]
+    ctx.ob(rule, "bitwise-first", bool(first), tu.loc(fn.node), "starts with memcpy(%s, %s, sizeof(*%s))" % (dst, src_, dst))
+    for f, ty, d in fields:
+        if "*" not in (ty or ""):
+            continue
+        lhs = "%s->%s" % (dst, f)
+        asg = [(r, n) for l, o, r, n in F.assigns if l == lhs and o == "="]
+        nulls = [1 for r, n in asg if r in ("NULL", "((void *)0)", "0")]
+        owns = [n for r, n in asg if re.search(r"\b(tsk_)?(m|c)alloc\(", r)]
+        ok = bool(nulls) or bool(owns)
+        ctx.ob(rule, "member|%s" % f, ok, tu.loc(fn.node),
+               "%s is %s" % (lhs, "re-allocated" if owns else "set to NULL") if ok else
+               "%s keeps the pointer copied from %s: the two variants share (and both free) one buffer" % (lhs, src_))
+        if owns and f not in ("alleles", "user_alleles_mem"):
+            filled = [a for c_, a, n in F.calls if c_ in ("tsk_memcpy", "memcpy") and a and a[0] == lhs]
+            okf = bool(filled) and filled[0][1] == "%s->%s" % (src_, f) and ("sizeof(*%s)" % lhs) in filled[0][2].replace(" ", "").replace("sizeof(*", "sizeof(*")
+            ctx.ob(rule, "fill|%s" % f, okf, tu.loc(fn.node), "memcpy(%s, %s->%s, n * sizeof(*%s)): %s" % (lhs, src_, f, lhs, filled[0] if filled else None))
